@@ -275,7 +275,7 @@ def parseResultList (fuel : Nat) (st : PState) : PR ResultList :=
   if peekIn st typePeeks then do
     let (ty, st) ← parseType fuel st
     .ok (.Scalar ty, st)
-  else .ok (.Empty, st)
+  else .error (lookaheadError st typePeeks)
 
 /-- `impl Parse for FuncType` -/
 def parseFuncType (fuel : Nat) (st : PState) : PR FuncType := do
